@@ -237,7 +237,7 @@ def dict_set(I, d, k, v):
 
 def dict_get(I, d, k, node=None):
     if d.abstract is not None:
-        return d.abstract.get(I, k)
+        return d.abstract.get(I, k, node)
     if key_concrete(k):
         e = d.entries.get(k)
         if e is None:
@@ -707,7 +707,7 @@ def str_format(I, fmt, arg, node=None):
             elif p == "%d" and is_intlike(a):
                 out.append(int_to_str(zi(a)))
             else:
-                fn = I.ctx.opaque_fn("fmt" + p, [z3.IntSort()], z3.StringSort())
+                fn = I.ctx.opaque_fn("fmt_" + p.strip("%"), [z3.IntSort()], z3.StringSort())
                 out.append(fn(zi(a)))
         elif "%" in p:
             raise OutOfReach("format directive in %r" % fmt)
@@ -1414,6 +1414,9 @@ def _next(I, args, kwargs):
         if m is not None:
             return I.call(m, [], {})
     raise OutOfReach("next(%r)" % (it,))
+
+
+LIBRARY["warnings.warn"] = NativeFn("warnings.warn", lambda I, a, k: None)     # warnings are not errors (assumption)
 
 
 def call_type(I, t, args, kwargs):
